@@ -6,6 +6,7 @@ import (
 	"math/rand"
 	"os"
 	"path/filepath"
+	"sort"
 	"strconv"
 	"strings"
 	"sync"
@@ -44,6 +45,43 @@ func defaultSeqs() map[string][]string {
 	return defSeqs
 }
 
+var (
+	unboundOnce sync.Once
+	unboundCmds []string // registered commands that no default keymap binds
+)
+
+// unboundCommands lists (sorted) the commands a Shell registers but binds to no key by default:
+// a user configuration can bind any of them.
+func unboundCommands() []string {
+	unboundOnce.Do(func() {
+		old, had := os.LookupEnv("INPUTRC")
+		os.Setenv("INPUTRC", "/dev/null")
+		sh := readline.NewShell()
+		if had {
+			os.Setenv("INPUTRC", old)
+		} else {
+			os.Unsetenv("INPUTRC")
+		}
+		bound := map[string]bool{}
+		for _, m := range sh.Config.Binds {
+			for _, b := range m {
+				if !b.Macro {
+					bound[b.Action] = true
+				}
+			}
+		}
+		for name := range sh.Keymap.Commands() {
+			if !bound[name] {
+				unboundCmds = append(unboundCmds, name)
+			}
+		}
+		sort.Strings(unboundCmds)
+	})
+	return unboundCmds
+}
+
+const c01Probe = "\x18\x1a" // C-x C-z + letter: commands bound by the case
+
 var c01Words = []string{"foo", " ", "bar baz", "(a[b]{c})", "'q w'", "\"x\"", "https://ex.com/a?b=c", "0x1f", "true", "\\", "é", "世", "a", "-", "  ", "foo.bar/baz", "x=1;", "<>", "0", "9", "yes", "`", "$(x)", "\t"}
 
 var c01CSI = []string{"\x1b[A", "\x1b[B", "\x1b[C", "\x1b[D", "\x1b[H", "\x1b[F", "\x1b[3~", "\x1b[1;5C", "\x1b[1;5D", "\x1b[5~", "\x1b[6~", "\x1bOA", "\x1bOD", "\x1b[Z",
@@ -57,6 +95,7 @@ type c01Case struct {
 	Comp    bool        `json:"comp"`
 	Multi   bool        `json:"multi"`
 	Editor  string      `json:"editor"` // missing | ok | fail
+	Bound   []string    `json:"bound,omitempty"` // commands without a default binding, bound to C-x C-z a, b, ...
 	Plan    []sess.Step `json:"plan"`
 	Exit    []sess.Step `json:"exit"`
 	ExitTag string      `json:"exit_tag"`
@@ -346,6 +385,22 @@ func c01Gen(r *rand.Rand, tier string, idx int) any {
 	} else {
 		c.Plan = limitDigits(genScript(r, c.Mode == "vi", n), 4)
 	}
+	if ub := unboundCommands(); len(ub) > 0 && r.Intn(3) == 0 {
+		// commands no default keymap binds: a user configuration can, so they are bound here
+		for i, n := 0, 1+r.Intn(6); i < n; i++ {
+			c.Bound = append(c.Bound, pick(r, ub))
+		}
+		for i, n := 0, 1+r.Intn(2*len(c.Bound)); i < n; i++ {
+			st := sess.Step{W: c01Probe + string(rune('a'+r.Intn(len(c.Bound)))), Tag: "unbound-by-default"}
+			at := r.Intn(len(c.Plan) + 1)
+			c.Plan = append(c.Plan[:at], append([]sess.Step{st}, c.Plan[at:]...)...)
+			if r.Intn(3) == 0 {
+				// some of them read an argument key
+				arg := sess.Step{W: string(rune(32 + r.Intn(95))), Tag: "arg"}
+				c.Plan = append(c.Plan[:at+1], append([]sess.Step{arg}, c.Plan[at+1:]...)...)
+			}
+		}
+	}
 	c.ExitTag = pick(r, []string{"ret", "ret", "ctrl-c", "ctrl-d", "eof", "eio", "eof", "eio"})
 	switch c.ExitTag {
 	case "ret":
@@ -423,6 +478,12 @@ func c01Run(env *fw.Env, raw json.RawMessage) fw.Outcome {
 		if c.Multi {
 			s.Sh.AcceptMultiline = func(l []rune) bool { return len(l) == 0 || l[len(l)-1] != '\\' }
 		}
+		for i, name := range c.Bound {
+			// (main keymaps and the visual one: the keymaps an inputrc file names)
+			for _, km := range []string{"emacs", "vi-insert", "vi-command", "vi-visual"} {
+				s.Sh.Config.Bind(km, c01Probe+string(rune('a'+i)), name, false)
+			}
+		}
 	}
 	s := sess.New(env.T, env.Scratch, cfg)
 	defer s.Close()
@@ -444,7 +505,7 @@ func c01Run(env *fw.Env, raw json.RawMessage) fw.Outcome {
 		}
 		o.Cover(w.Cmd + "|" + w.Main + "/" + w.Local + "|" + shape + "|" + w.Kind)
 	}
-	ctx := fmt.Sprintf("mode=%s exit=%s", c.Mode, c.ExitTag)
+	ctx := fmt.Sprintf("mode=%s exit=%s bound-for-the-case=%v", c.Mode, c.ExitTag, c.Bound)
 	ok := stdFailures(&o, res, ctx)
 	if ok {
 		switch {
